@@ -59,7 +59,12 @@ def is_negligible(gspec):
 
 def gen_bytes(rng, kind=None):
     kind = kind or rng.choice(["empty", "one", "short", "short", "ascii", "long", "nul", "nonascii", "block",
-                               "exactlen", "textual", "pattern"])
+                               "exactlen", "textual", "pattern", "exactlen", "textual", "pattern", "huge"])
+    if kind == "huge":
+        # certificates / key files used as identities, pass-phrases pasted from files
+        n = rng.choice([1354, 2048, 4096, 5000, 9000])
+        return (b"-----BEGIN CERTIFICATE-----\n" + bytes(rng.choice(b"ABCDEFGHIJKLMNOPabcdefghijklmnop0123456789+/")
+                                                        for _ in range(n)) + b"\n-----END CERTIFICATE-----\n")
     if kind == "exactlen":
         # lengths around hash-block / padding / typical buffer boundaries
         n = rng.choice([15, 16, 17, 31, 32, 33, 55, 56, 57, 63, 64, 65, 119, 127, 128, 129, 255, 256, 257, 1000])
